@@ -247,11 +247,12 @@ Cmd == [c \in Classes |-> CmdOf(c)]
 
 
 \* fields whose defined code values are fewer than the field is wide: only the codes the
-\* standard defines are "in range" (SMC-3 element type codes 0..4; READ CD sub-channel 0,1,2,4;
-\* C2 error codes 0..2; expected sector type 0..5)
+\* standard defines are "in range" (READ CD sub-channel 0,1,2,4; C2 error codes 0..2; expected sector
+\* type 0..5: the library sizes and slices the data-in buffer by them).  The SMC-3 element type code is NOT
+\* limited to its defined values 0..4: the library passes it through, and a reserved code with bit 3 set is
+\* how the three-bit mask of the pinned tree showed (fixed in /repo 77afbd8)
 CodeLimit(c, arg) ==
-    CASE c = "ReadElementStatus" /\ arg = "element_type" -> {N(i) : i \in 0..4}
-      [] c = "ReadCd" /\ arg = "scsb" -> {N(0), N(1), N(2), N(4)}
+    CASE c = "ReadCd" /\ arg = "scsb" -> {N(0), N(1), N(2), N(4)}
       [] c = "ReadCd" /\ arg = "c2ei" -> {N(i) : i \in 0..2}
       [] c = "ReadCd" /\ arg = "est"  -> {N(i) : i \in 0..5}
       [] OTHER -> {}
